@@ -120,7 +120,10 @@ def combo_rows(lin, circ, cols, a):
     for r in range(lin):
         terms = [c[r] * x for c, x in zip(cols, a)]
         scale = ksum(abs(x) for x in terms)
-        out.append((ksum(terms), 64 * EPS * scale * max(1, len(a)) ** 0.5 + 1e-300, 1.0))
+        # Eigen's vectorised exp clamps its argument: exp(-inf) is a denormal (5.6e-309), not 0 — an absolute error of
+        # the order of DBL_MIN on every weight (observed on the clean tree: 1.25e10 * exp(-inf) = 6.9e-299)
+        under = 4 * DBL_MIN * ksum(abs(c[r]) for c in cols)
+        out.append((ksum(terms), 64 * EPS * scale * max(1, len(a)) ** 0.5 + under + 1e-300, 1.0))
     for r in range(lin, lin + circ):
         s = ksum(fsin(c[r]) * x for c, x in zip(cols, a))
         co = ksum(fcos(c[r]) * x for c, x in zip(cols, a))
